@@ -1,7 +1,7 @@
 #!/usr/bin/env python3
 """tools/keep_seed.py <seed-out-dir> <seed-id> <property> <check>[,<check>...]
 Stores a confirmed seeded breakage under /verif/seeded/<seed-id>/ (patch.diff, demo.diff, README.md, confirm.log, meta.json)
-after running the named checks against it (patch applied to /repo, checks run, patch reverted)."""
+after running the named checks against it (the patch is analysed through a source overlay; /repo is not modified)."""
 import json, os, re, shutil, subprocess, sys
 src, sid, prop, checks = sys.argv[1], sys.argv[2], sys.argv[3], sys.argv[4].split(",")
 dst = os.path.join("/verif/seeded", sid)
@@ -10,7 +10,7 @@ for f in ("patch.diff", "demo.diff", "README.md", "confirm.log"):
     if os.path.exists(os.path.join(src, f)):
         shutil.copy(os.path.join(src, f), os.path.join(dst, f))
 conf = open(os.path.join(src, "confirm.log")).read().strip().splitlines()[-1] if os.path.exists(os.path.join(src, "confirm.log")) else "not confirmed"
-r = subprocess.run(["/verif/tools/run_seeded.sh", os.path.join(dst, "patch.diff")] + checks, capture_output=True, text=True)
+r = subprocess.run(["/verif/tools/check_with_patch.sh", os.path.join(dst, "patch.diff")] + checks, capture_output=True, text=True)  # overlay: /repo untouched
 out = r.stdout
 caught = sorted(set(re.findall(r"VIOLATION property=(C\d+)", out)))
 rules = [l.strip()[:300] for l in out.splitlines() if l.startswith("  rule=")][:6]
